@@ -92,6 +92,19 @@ def cases(tier, seed):
         cfg = {"jac": "callable", "maxcor": int(rng.integers(3, 22)), "maxiter": 2000, "maxfun": 100000, "maxls": int(gen.pick(rng, [20, 20, 5])),
                "ftol": 0.0, "gtol": 0.0, "gtol_callable": False, "target_kind": None, "ftarget_callable": False, "cb": gen.pick(rng, [None, "never"])}
         yield {"problem": ps, "cfg": cfg, "restarts": [], "tiny_units": None, "unbounded_below": True}
+    # the other end of the range: with gtol = 0 a run on a valley whose curvatures go down to 1e-31 approaches the origin until objective,
+    # gradient and the squares of the gradient components underflow
+    for wseed, wm in ((108, 2), (114, 5), (256, 5)):
+        # fixed witnesses of the open finding "ValueError when the squares of the gradient components underflow" (known_findings.json)
+        yield {"problem": {"family": "underflow_valley", "n": 2, "seed": wseed, "box": "none", "start": "interior"},
+               "cfg": {"jac": "callable", "maxcor": wm, "maxiter": 300, "maxfun": 100000, "maxls": 20, "ftol": 0.0, "gtol": 0.0, "gtol_callable": False,
+                       "target_kind": None, "ftarget_callable": False, "cb": None, "plain_inputs": True},
+               "restarts": [], "tiny_units": None, "underflow": True}
+    for i in range(60 if tier == "quick" else 1500):
+        ps = gen.rand_spec(rng, ("underflow_valley",), nmax=3, nmin=2, boxes=("none",), starts=("interior",))
+        cfg = {"jac": "callable", "maxcor": int(gen.pick(rng, [2, 5])), "maxiter": 300, "maxfun": 100000, "maxls": 20,
+               "ftol": 0.0, "gtol": 0.0, "gtol_callable": False, "target_kind": None, "ftarget_callable": False, "cb": gen.pick(rng, [None, "never"])}
+        yield {"problem": ps, "cfg": cfg, "restarts": [], "tiny_units": None, "underflow": True}
     # runs whose objective is redefined on the fly (update_fun_def): every implication must be true of the returned state
     nu = 400 if tier == "quick" else 12000
     for i in range(nu):
@@ -277,6 +290,8 @@ def run(spec):
         out.count("runs_on_domain_restricted_objective")
     if spec.get("unbounded_below"):
         out.count("runs_on_objectives_unbounded_below")
+    if spec.get("underflow"):
+        out.count("runs_driven_to_underflow_with_zero_tolerances")
     usc = 1.0
     if spec.get("tiny_units") and not spec.get("ufd") and P.spec["family"] != "log_barrier":
         # magnitudes: the same objective expressed in units in which all its values, its gradient and the target are of order 1e-16..1e-60
@@ -291,6 +306,8 @@ def run(spec):
         fstar = min(fstar * usc, f0)
         cfg["ftarget"] = {"below": fstar - usc - abs(fstar), "reachable": fstar + 0.3 * (f0 - fstar) + 1e-12 * usc, "above": f0 + usc}[kind]
     tags = dict(family=P.spec["family"])
+    if spec.get("underflow"):
+        tags["scenario"] = "gradient_underflow"
     keys = set()
     hooks = {}
     shared_g = SharedCriterion(cfg["gtol"]) if cfg.get("gtol_callable") else None
